@@ -9,6 +9,7 @@ import (
 
 	"verif/internal/gen"
 	"verif/internal/h"
+	"verif/internal/model"
 )
 
 func init() {
@@ -236,12 +237,36 @@ func checkAny(c *h.Ctx, docText string, doc any, listings [][]wnode, spec anySpe
 		c.Count("gen.unparsable", 1)
 		return
 	}
-	o := h.Call("query", p, h.Decode(docText, c15UseNum), h.Opts{})
+	// (every other time the arrays of the document are cut out of one backing
+	// array with spare capacity, as a caller may have built them)
+	docv := h.Decode(docText, c15UseNum)
+	if c15Seq%2 == 1 {
+		docv = h.SpareCap(docv)
+	}
+	before := h.CanonTyped(docv)
+	o := h.Call("query", p, docv, h.Opts{})
 	c.Eval(1)
 	if isContainer(doc) {
 		c.Distinct(docText, ptxt)
 	}
 	cs := h.Case{Kind: "any", Path: ptxt, Doc: docText, UseNum: c15UseNum}
+	if o.Class == h.OK {
+		// the walk leaves the document as it was, and what it returned stays
+		// what it was when the same document is walked again
+		kept := h.CanonListTyped(o.Items)
+		o2 := h.Call("query", p, docv, h.Opts{})
+		c.Eval(1)
+		switch {
+		case h.CanonTyped(docv) != before:
+			c.Violate("aliasing", h.F("mode", modeName(lax), "kind", "document-changed"), fmt.Sprintf("Query(%s) changed the document: %s -> %s", ptxt, before, h.CanonTyped(docv)), cs)
+		case h.CanonListTyped(o.Items) != kept:
+			c.Violate("aliasing", h.F("mode", modeName(lax), "kind", "earlier-result-changed"), fmt.Sprintf("the items returned by Query(%s) on %s were %s; after a second Query on the same document they read %s", ptxt, docText, kept, h.CanonListTyped(o.Items)), cs)
+		case o2.Class == h.OK && !hasMultiMemberObject(docv) && h.CanonListTyped(o2.Items) != kept:
+			c.Violate("aliasing", h.F("mode", modeName(lax), "kind", "second-walk-differs"), fmt.Sprintf("Query(%s) on %s returned %s, and then %s", ptxt, docText, kept, h.CanonListTyped(o2.Items)), cs)
+		default:
+			c.Held("aliasing")
+		}
+	}
 	clause := "anylevel"
 	if spec.leaves {
 		clause = "anylevel.last"
@@ -477,6 +502,79 @@ func checkTree(c *h.Ctx, docText string, specs []anySpec, full bool) {
 						continue
 					}
 					checkAny(c, docText, doc, listings, spec, lax, suf)
+				}
+			}
+		}
+		// strict mode: a filter after .** sees the same relaxation - a member
+		// accessor inside its condition skips the nodes it does not apply to
+		// (the comparison is then false, not unknown: visible under ! and is unknown)
+		if !lax && listings != nil && len(listings) > 0 {
+			for si, spec := range specs {
+				if si%2 != 0 {
+					continue
+				}
+				for fi, form := range []string{" ? (!(@.a == 1))", " ? ((@.a == 1) is unknown)", " ? (!(@.a == 1)).a", " ? (!(exists(@.a)))"} {
+					ptxt := "strict $" + spec.text + form
+					p := cachedPath(ptxt)
+					if p == nil {
+						continue
+					}
+					o := h.Call("query", p, h.Decode(docText, c15UseNum), h.Opts{})
+					c.Eval(1)
+					if o.Class == h.Panic || o.Class == h.Invalid {
+						continue
+					}
+					matched, open := false, false
+					var firstWant string
+					for _, l := range listings {
+						var want []any
+						for _, x := range selectLevels(doc, l, spec.first, spec.last, spec.leaves) {
+							cmp, has := model.False, false
+							var av any
+							if m, ok := x.(map[string]any); ok {
+								if v, ok := m["a"]; ok {
+									has, av = true, v
+									var cerr error
+									if cmp, cerr = model.Compare("==", v, int64(1)); cerr != nil {
+										open = true // a number without a by-value verdict
+									}
+								}
+							}
+							keep := false
+							switch fi {
+							case 0, 2:
+								keep = model.Not(cmp) == model.True
+							case 1:
+								keep = cmp == model.Unknown
+							case 3:
+								keep = !has
+							}
+							if keep && fi == 2 {
+								if has {
+									want = append(want, av)
+								}
+								continue
+							}
+							if keep {
+								want = append(want, x)
+							}
+						}
+						w := canonItems(want)
+						if firstWant == "" {
+							firstWant = w
+						}
+						if o.Class == h.OK && canonItems(o.Items) == w {
+							matched = true
+							break
+						}
+					}
+					if open {
+						c.Skip("strict.skip", "number-without-a-by-value-verdict")
+					} else if !matched {
+						c.Violate("strict.skip", h.F("mode", "strict", "kind", "filter-condition", "suffix", form), fmt.Sprintf("Query(%s) on %s = %s; below .** a member accessor in the condition skips what it does not apply to, so the filter keeps [%s]", ptxt, docText, o.Summary(), firstWant), h.Case{Kind: "any", Path: ptxt, Doc: docText, UseNum: c15UseNum})
+					} else {
+						c.Held("strict.skip")
+					}
 				}
 			}
 		}
